@@ -98,7 +98,20 @@ def build_op(draw, cur):
 @st.composite
 def desc_edit(draw, cur, sources, extra_id):
     shells = [c for c in cur["commands"] if c["tool"] == "shell"]
-    kind = draw(st.sampled_from(["salt", "salt", "add-input", "remove-input", "remove-cmd", "add-cmd", "produce-source"]))
+    kind = draw(st.sampled_from(["salt", "salt", "add-input", "remove-input", "remove-cmd", "add-cmd", "produce-source",
+                                 "produce-virtual"]))
+    if kind == "produce-virtual":
+        # a virtual node that nothing produced so far gains a producer (which also writes a file)
+        used = {n for c in cur["commands"] for n in c.get("inputs", [])} | {n for t in cur["targets"].values() for n in t}
+        orphans = [n for n in sorted(used) if bm.is_virtual(n) and not any(n in c["outputs"] for c in cur["commands"])]
+        if orphans:
+            extra_id[0] += 1
+            free = [x for x in sources if not any(x in c["outputs"] for c in cur["commands"])]
+            ins = [draw(st.sampled_from(free))] if free and draw(st.booleans()) else []
+            return {"kind": "add-cmd", "cmd": {"name": "GV%d" % extra_id[0], "tool": "shell", "inputs": ins,
+                                              "outputs": [orphans[0], "gv%d_0" % extra_id[0]], "salt": "v"},
+                    "target": None, "front": True}
+        kind = "salt"
     if kind == "salt" and shells:
         c = draw(st.sampled_from(shells))
         return {"kind": "salt", "cmd": c["name"], "salt": "n%d" % draw(st.integers(0, 4))}
